@@ -10,21 +10,6 @@ import SqlizeModel.Proofs.CrossLoad
 namespace Sqlize
 open Spec
 
-/-- md5 pre-image of a reference column: escaped name, a blank, the type text -/
-def Spec.ColSpec.hashInput (g : Globals) (c : ColSpec) : String := g.esc c.name ++ " " ++ c.typ
-
-/-- md5 pre-image of a reference index: its CREATE statement for the empty table name, upper-case templates, the
-    default index type left out -/
-def Spec.IdxSpec.hashInput (g : Globals) (i : IdxSpec) : String :=
-  let gu := { g with lower := false }
-  sprintf (gu.tpl (if i.unique then "CreateUniqueIndexStm" else "CreateIndexStm") (if i.itype == "BTREE" then "" else i.itype))
-    [gu.esc i.name, gu.esc "", ", ".intercalate (i.cols.map gu.esc)]
-
-/-- md5 pre-image of a table-level primary key -/
-def pkHashInput (g : Globals) (cols : List String) : String :=
-  let gu := { g with lower := false }
-  sprintf (gu.tpl "CreatePrimaryKeyStm") [gu.esc "", ", ".intercalate (cols.map gu.esc)]
-
 theorem normIdx_cases (t : String) :
     (if t == "BTREE" then "" else t) = (if Table.normIdxType t == "BTREE" then "" else Table.normIdxType t) := by
   unfold Table.normIdxType
@@ -72,15 +57,6 @@ theorem mapM_ok {α β : Type} (f : α → M β) (g : α → β) : ∀ (l : List
     intro h
     rw [List.mapM_cons, h a (by simp), ih (fun x hx => h x (by simp [hx]))]
     rfl
-
-/-- the digest of a reference table: a function of its columns (name, type), its primary key and its indexes -/
-def Spec.TableSpec.hashOf (H : String → String) (g : Globals) (tb : TableSpec) : String :=
-  tableHashOf H (tb.cols.map (ColSpec.hashInput g))
-    ((if tb.pk = [] then [] else [pkHashInput g tb.pk]) ++ tb.idxs.map (IdxSpec.hashInput g))
-
-/-- the value of a reference schema -/
-def Spec.DB.hashOf (H : String → String) (F : String → Int) (g : Globals) (db : DB) : Int :=
-  if db.isEmpty then 0 else F (";".intercalate (db.map (TableSpec.hashOf H g)))
 
 theorem cols_hashInput (g : Globals) : ∀ (a : List Column) (b : List ColSpec), a.map (·.name) = b.map (·.name) →
     (b.map (·.name)).Nodup → (∀ c ∈ a, ∃ cs ∈ b, cs.name = c.name ∧ c.cur.typ = some cs.typ) →
